@@ -66,8 +66,11 @@ class Stepper(object):
         self.twin_comm = core.Comm()
 
     def unhomed(self):
+        """An axis position is unknown now, or was when the open episode began (commands issued before homing)."""
         pos = self.h.state.position
-        return any(a.current is None for a in (pos.X_AXIS, pos.Y_AXIS, pos.Z_AXIS))
+        last = self.h.state.lastPosition
+        return any(a.current is None for a in (pos.X_AXIS, pos.Y_AXIS, pos.Z_AXIS)) or (
+            last is not None and any(a.current is None for a in (last.X_AXIS, last.Y_AXIS, last.Z_AXIS)))
 
     def info(self):
         cl = []
